@@ -14,7 +14,8 @@ RULE = ("images with dims 1..12, 1..5 components, all number types, created with
         "optional FillValue attribute before the first write; histories of GRwriteimage rectangles/strides inside "
         "the image (buffers in the creation interlace), GRreqimageil x GRreadimage rectangles/strides (buffers in "
         "the requested interlace: 3x3 combinations), 256x3 palettes via GRwritelut/GRreqlutil/GRreadlut, "
-        "GRsetcompress(RLE|skphuff|deflate) with whole-image writes, GRsetchunk (+coder, cache) with region writes, "
+        "GRsetcompress(RLE|skphuff|deflate) with whole-image writes, GRsetchunk (+coder, cache) with region writes and whole-chunk GRwritechunk/GRreadchunk (round trip per "
+        "chunk; which pixels a chunk covers is not modelled), "
         "GRendaccess/GRend/reopen, GRgetiminfo/GRgetlutinfo/GRnametoindex/GRreftoindex; numpy HxWxC model with "
         "value/fill/unknown cells. Non-trivial = ncomp>=2 with a non-pixel interlace on either side and a "
         "non-square sub-rectangle, or a partial first write (fill), or compressed/chunked storage.")
@@ -86,7 +87,14 @@ def strategy_(draw, tier):
     ops = []
     for _ in range(draw(st.integers(2, 12))):
         c = draw(st.integers(0, 99))
-        if c < 35:
+        if storage in ("chunk", "chunkcomp") and c < 14:
+            # whole-chunk access; chunk indices are reduced modulo the chunk grid when the program is built
+            if c < 7:
+                ops.append(["wchunk", draw(st.integers(0, 20)), draw(st.integers(0, 20)), draw(st.integers(0, 99))])
+            else:
+                ops.append(["rchunk", draw(st.integers(0, 20)), draw(st.integers(0, 20)),
+                            draw(st.sampled_from([PIXEL, PIXEL, LINE, COMP]))])
+        elif c < 35:
             if storage == "comp":
                 ops.append(["write", [0, 0], None, [W, H], draw(st.integers(0, 99))])
             else:
@@ -151,6 +159,7 @@ def run_case(case):
                 checks.append((p.call("i", "GRsetchunkcache", V("ri"), sc["cache"], 0), "nofail", "GRsetchunkcache"))
             labels.add("special_storage")
         cur_il = case["il"]         # interlace in which GRwriteimage interprets buffers
+        last_chunk = {}             # chunk index -> block last written with GRwritechunk (until the next GRwriteimage)
         written = False
         dirty = False
         excluded = []
@@ -179,6 +188,7 @@ def run_case(case):
                 checks.append((p.call("i", "GRwriteimage", V("ri"), i32s(*s), i32s(*sd) if sd else None, i32s(*cn),
                                       to_il(block, cur_il)), "ret0", "GRwriteimage %s/%s/%s" % (s, sd, cn)))
                 dirty = True
+                last_chunk.clear()
                 if not written:
                     written = True
                     stt[stt == 0] = 2
@@ -213,6 +223,27 @@ def run_case(case):
                 checks.append((ln, "read", (ev, es, cy, cx, ril, "GRreadimage %s/%s/%s il=%d" % (s, sd, cn, ril))))
                 if C >= 2 and ril != PIXEL and cx != cy:
                     labels.add("interlace_nd")
+            elif k in ("wchunk", "rchunk"):
+                if storage not in ("chunk", "chunkcomp") or not written:
+                    continue
+                c0, c1 = case["scfg"]["shape"]
+                # GRsetchunk declares dimension 0 with the image's x extent and dimension 1 with its y extent
+                i0, i1 = op[1] % (-(-W // c0)), op[2] % (-(-H // c1))
+                if k == "wchunk":
+                    blk = sm.gen_values(nt, op[3], c1 * c0 * C).reshape(c1, c0, C)
+                    checks.append((p.call("i", "GRwritechunk", V("ri"), i32s(i0, i1), to_il(blk, cur_il)), "ret0",
+                                   "GRwritechunk %s" % [i0, i1]))
+                    # which pixels of the image a chunk holds is not modelled: everything becomes unknown
+                    stt[:] = 3
+                    last_chunk[(i0, i1)] = blk
+                    dirty = True
+                    labels.add("whole_chunk_write")
+                else:
+                    ril = op[3]
+                    checks.append((p.call("i", "GRreqimageil", V("ri"), ril), "ret0", "GRreqimageil"))
+                    ln = p.call("i", "GRreadchunk", V("ri"), i32s(i0, i1), Out(c0 * c1 * C * isz))
+                    checks.append((ln, "rchunk", (last_chunk.get((i0, i1)), c1, c0, ril, [i0, i1])))
+                    labels.add("whole_chunk_read")
             elif k == "lutw":
                 seed, lil = op[1], op[2]
                 if not written:
@@ -318,6 +349,15 @@ def run_case(case):
                                    expected=str(ev[y, x, c]), observed=str(got[y, x, c]),
                                    cell_state={0: "untouched", 1: "written", 2: "fill"}[int(es[y, x, c])],
                                    nbad=int(len(bad)))
+                elif ck == "rchunk":
+                    blk, ch, cw, ril, org = pay
+                    if r.ret != 0:
+                        raise Fail("GRreadchunk failed", chunk=org)
+                    if blk is not None:
+                        got = from_il(r.bufs[0], dt, ch, cw, C, ril)
+                        if got.tobytes() != np.ascontiguousarray(blk).tobytes():
+                            raise Fail("GRreadchunk does not return the chunk GRwritechunk stored", chunk=org,
+                                       read_interlace=ril)
                 elif ck == "lut":
                     data, lil = pay
                     if r.ret != 0:
